@@ -597,9 +597,13 @@ def _build_sop_numbering(tree):
     for s2 in blk:
         ast.fix_missing_locations(s2)
     text = translate_block(blk, 'sopGroupCheck', [('i', 'int')],
-                           {'isinstance(group, AnnotationGroup)': ('bool', 'isGroup'), 'group.AnnotationGroupNumber': ('int', 'number')},
+                           {'isinstance(group, AnnotationGroup)': ('bool', 'isGroup'), 'group.AnnotationGroupNumber': ('int', 'number'),
+                            'len(group._graphic_data)': ('int', 'nCached'),
+                            'coordinate_type not in group._graphic_data': ('bool', 'typeNotCached')},
                            doc='loop body of the SOP class constructor for the group at zero-based position `i`: TypeError for a '
-                               'non-group, ValueError unless its number is the expected one')
+                               'non-group, ValueError unless its number is the expected one, ValueError for a group whose graphic data '
+                               '(`_graphic_data`, filled by the group constructor under its own coordinate type) is not of the '
+                               'instance`s coordinate type')
     return text, span_sha(body)
 
 
